@@ -277,6 +277,17 @@ func execOp(re *regexp2.Regexp, op *Op, keep *[]kept) (out string) {
 		r2 := regexp2.MustCompile(re.String(), regexp2.RegexOptions(op.StartAt))
 		ok, err := r2.MatchString(in)
 		return orErr(fmt.Sprint(ok), err)
+	case OpMarshalRoundTrip:
+		b, err := re.MarshalText()
+		if err != nil {
+			return orErr("", err)
+		}
+		var r2 regexp2.Regexp
+		if err := r2.UnmarshalText(b); err != nil {
+			return "UNMARSHAL:" + err.Error()
+		}
+		ok, err := r2.MatchString(in)
+		return orErr(fmt.Sprintf("%s %q %v", b, r2.String(), ok), err)
 	case OpIdle:
 		vsim.Sleep(time.Duration(op.IdleNs))
 		return ""
